@@ -104,6 +104,9 @@ def run(ctx):
     # ---- (B) the property on the implementation
     docs = list(gen.uniq(list(gen.POOL) + gen.sample(list(gen.d_trig_small()), 90, 4711) + ["10. x\n", "a\t\n", "", "\n", "    a\n```\nx\n```\n", "1. a\n1. b\n", "- a\n  - b\n    - c\n", "#  a  #\n\n\n\nb   \n",
                           "a\tb   \n", "\ta   \n", "a\tb \n", "some\ttext   \nx\n", "- a\tb   \n", "a\tb   \n\n\n\nc \n"]))  # one line that two level-0 line fixers both rewrite
+    docs += ["\n\n".join("#" * l + " " + "abc"[i] for i, l in enumerate(ls)) + "\n" for ls in itertools.product((1, 2, 3, 4, 5), repeat=3)]   # every ladder of three heading levels
+    docs += ["# a\n\n#### b\n\n##### c\n\n###### d\n", "1. one\n3.  three\nx  \n", "1. one\n3.  three\n", "- a\n     - b\n\n       b2\n   - c\n\n     c2\n"]
+    docs = list(gen.uniq(docs))
     configs = [("default", [], [])]
     configs += [("only:" + r, [r], [x for x in allids if x != r]) for r in fixers]
     configs += [("pair:" + a + "+" + b, [a, b], [x for x in allids if x not in (a, b)]) for a, b in itertools.combinations(fixers, 2)]
